@@ -18,7 +18,7 @@ def one(name):
     ids = []
     if RELEVANT:      # only the check of the property the change was written for + the checks that fired on it before
         ids = sorted(set([meta.get("property", name.split("_")[0])] + list(meta.get("fired") or [])))
-    p = subprocess.run([sys.executable, os.path.join(V, "tools", "seedtest.py"), os.path.join(d, "patch.diff")] + ids, capture_output=True, text=True, env=env)
+    p = subprocess.run([sys.executable, os.path.join(V, "tools", "seedtest.py"), os.path.join(d, "patch.diff")] + ids, capture_output=True, text=True, errors="replace", env=env)
     lines = [l for l in p.stdout.splitlines() if l[:1] == "C" and len(l) > 3 and l[1:3].isdigit()]
     if RELEVANT and meta.get("checks"):
         new = {l.split()[0]: l for l in lines}
